@@ -47,6 +47,17 @@ def _normalize_path_cached(path: str) -> str:
         return str(path)
 
 
+def _normalize_path(path: str) -> str:
+    """Normalize a path; only absolute paths are cached.
+
+    The result for a relative path depends on the current working directory,
+    which the SUT may change, so it must not be served from the cache.
+    """
+    if os.path.isabs(path):  # noqa: PTH117
+        return _normalize_path_cached(path)
+    return _normalize_path_cached.__wrapped__(path)
+
+
 class FilesystemIsolation(ContextDecorator):
     """Isolates filesystem side effects during test execution.
 
@@ -69,7 +80,7 @@ class FilesystemIsolation(ContextDecorator):
     @staticmethod
     def _abspath(path: os.PathLike | str) -> str:
         """Convert a path to an absolute path."""
-        return _normalize_path_cached(str(path))
+        return _normalize_path(str(path))
 
     def _record_created(self, *paths: os.PathLike | str | None) -> None:
         """Record newly created paths. Uses set.update for fewer allocations."""
@@ -77,10 +88,74 @@ class FilesystemIsolation(ContextDecorator):
         self._created.update(to_add)
 
     def _forget(self, *paths: os.PathLike | str | None) -> None:
-        """Forget paths (on deletion/move). Uses discard to avoid exceptions."""
+        """Forget paths (on deletion/move). Uses discard to avoid exceptions.
+
+        A path that still exists (e.g., after renaming it onto itself) stays
+        recorded, otherwise it would survive the cleanup.
+        """
         for p in paths:
             if p is not None:
-                self._created.discard(self._abspath(p))
+                abs_path = self._abspath(p)
+                if not os.path.lexists(abs_path):  # noqa: PTH110
+                    self._created.discard(abs_path)
+
+    def _is_isolated(self, path: os.PathLike | str) -> bool:
+        """Whether the path, or one of its parents, was created inside the sandbox."""
+        current = self._abspath(path)
+        tmp_root = self._abspath(self._tmp.name)
+        while True:
+            if current in self._created or current == tmp_root:
+                return True
+            parent = os.path.dirname(current)  # noqa: PTH120
+            if parent == current:
+                return False
+            current = parent
+
+    def _guard_write(
+        self, path: os.PathLike | str | int | None, *, overwrite: bool = True
+    ) -> tuple[str, ...]:
+        """Check a path an operation is about to create or write to.
+
+        Args:
+            path: The path that will be created or written.
+            overwrite: Whether the operation changes the content of an existing path.
+
+        Returns:
+            The paths that have to be recorded as created if the operation succeeds:
+            the path itself and the topmost missing parent directory.  Empty if the
+            path already exists, as it is then not a product of this operation.
+
+        Raises:
+            PermissionError: If the path exists outside the sandbox and would be
+                overwritten.
+        """
+        if path is None or isinstance(path, int):
+            # Nothing to track for file descriptors.
+            return ()
+        abs_path = self._abspath(path)
+        if os.path.lexists(abs_path):  # noqa: PTH110
+            if overwrite and not self._is_isolated(abs_path):
+                raise PermissionError(f"Attempted to modify non-isolated path: {abs_path}")
+            return ()
+        top = abs_path
+        parent = os.path.dirname(top)  # noqa: PTH120
+        while parent != top and not os.path.lexists(parent):  # noqa: PTH110
+            top, parent = parent, os.path.dirname(parent)  # noqa: PTH120
+        return (abs_path,) if top == abs_path else (abs_path, top)
+
+    @staticmethod
+    def _effective_destination(
+        src: os.PathLike | str | None, dst: os.PathLike | str | None
+    ) -> os.PathLike | str | None:
+        """Resolve the path a copy or move into an existing directory really writes."""
+        if src is None or dst is None:
+            return dst
+        try:
+            if os.path.isdir(dst):  # noqa: PTH112
+                return os.path.join(dst, os.path.basename(os.fspath(src).rstrip(os.sep)))  # noqa: PTH118, PTH119
+        except (TypeError, ValueError):
+            pass
+        return dst
 
     @staticmethod
     def _is_write_mode(mode: str) -> bool:
@@ -106,8 +181,24 @@ class FilesystemIsolation(ContextDecorator):
         record_arg_idx: int | None = None,
         record_dst_idx: int | None = None,
         forget_arg_idx: int | None = None,
+        overwrites: bool = True,
+        dst_may_be_dir: bool = False,
     ) -> Callable:
-        """Create a tracked wrapper that uses positional indices."""
+        """Create a tracked wrapper that uses positional indices.
+
+        Args:
+            original_func: The function to wrap.
+            record_arg_idx: Index of the argument naming a created path.
+            record_dst_idx: Index of the argument naming a destination path.
+            forget_arg_idx: Index of the argument naming a removed path.
+            overwrites: Whether the function changes already existing paths
+                (as opposed to merely creating missing ones).
+            dst_may_be_dir: Whether an existing destination directory means
+                "create an entry inside that directory".
+
+        Returns:
+            The tracked wrapper.
+        """
 
         @functools.wraps(original_func)
         def tracked_method(*args, **kwargs):
@@ -115,15 +206,24 @@ class FilesystemIsolation(ContextDecorator):
             if forget_path:
                 abs_forget = self._abspath(forget_path)
                 # only allow modifications of previously-created (isolated) paths
-                if abs_forget not in self._created:
+                if not self._is_isolated(abs_forget):
                     raise PermissionError(f"Attempted to modify non-isolated path: {abs_forget}")
+
+            rec = self._get_arg(args, kwargs, record_arg_idx)
+            dst = self._get_arg(args, kwargs, record_dst_idx)
+            if dst_may_be_dir:
+                dst = self._effective_destination(self._get_arg(args, kwargs, 0), dst)
+            # Only paths that do not exist yet are products of this call; existing
+            # ones outside the sandbox must neither be overwritten nor cleaned up.
+            to_record = (
+                *self._guard_write(rec, overwrite=overwrites),
+                *self._guard_write(dst, overwrite=overwrites),
+            )
 
             res = original_func(*args, **kwargs)
 
             try:
-                rec = self._get_arg(args, kwargs, record_arg_idx)
-                dst = self._get_arg(args, kwargs, record_dst_idx)
-                self._record_created(rec, dst)
+                self._record_created(*to_record)
             except Exception:  # noqa: BLE001
                 _LOGGER.warning("Failed to update bookkeeping for %s", original_func)
 
@@ -145,12 +245,14 @@ class FilesystemIsolation(ContextDecorator):
             # second positional arg may be mode, or kwargs['mode']
             file_arg = args[0] if args else kwargs.get("file")
             mode = kwargs.get("mode", args[1] if len(args) > 1 else "r")
-            f = original_func(*args, **kwargs)
+            to_record: tuple[str, ...] = ()
             if isinstance(mode, str) and self._is_write_mode(mode):
-                try:
-                    self._record_created(file_arg)
-                except Exception:  # noqa: BLE001
-                    _LOGGER.warning("Failed to record created file: %s", file_arg)
+                to_record = self._guard_write(file_arg)
+            f = original_func(*args, **kwargs)
+            try:
+                self._record_created(*to_record)
+            except Exception:  # noqa: BLE001
+                _LOGGER.warning("Failed to record created file: %s", file_arg)
             return f
 
         return tracked_open
@@ -171,13 +273,14 @@ class FilesystemIsolation(ContextDecorator):
 
         @functools.wraps(original_func)
         def tracked_os_open(path, flags, *args, **kwargs):
-            should_record = bool(flags & write_flags)
+            to_record: tuple[str, ...] = ()
+            if flags & write_flags:
+                to_record = self._guard_write(path)
             fd = original_func(path, flags, *args, **kwargs)
-            if should_record:
-                try:
-                    self._record_created(path)
-                except Exception:  # noqa: BLE001
-                    _LOGGER.warning("Failed to record created path: %s", path)
+            try:
+                self._record_created(*to_record)
+            except Exception:  # noqa: BLE001
+                _LOGGER.warning("Failed to record created path: %s", path)
             return fd
 
         return tracked_os_open
@@ -188,12 +291,13 @@ class FilesystemIsolation(ContextDecorator):
         @functools.wraps(original_func)
         def tracked_method(path_self, target):
             abs_path = self._abspath(path_self)
-            if abs_path not in self._created:
+            if not self._is_isolated(abs_path):
                 raise PermissionError(f"Attempted to rename/replace non-isolated path: {abs_path}")
+            to_record = self._guard_write(target)
             res = original_func(path_self, target)
             try:
                 self._forget(path_self)
-                self._record_created(res)
+                self._record_created(*to_record)
             except Exception:  # noqa: BLE001
                 _LOGGER.warning(
                     "Failed to update bookkeeping for rename/replace: %s -> %s", path_self, target
@@ -205,17 +309,17 @@ class FilesystemIsolation(ContextDecorator):
     def _initialize_patches(self) -> None:
         """Initialize all patches with tracked wrappers."""
         patches = {
-            (os, "mkdir"): {"record_arg_idx": 0},
-            (os, "makedirs"): {"record_arg_idx": 0},
+            (os, "mkdir"): {"record_arg_idx": 0, "overwrites": False},
+            (os, "makedirs"): {"record_arg_idx": 0, "overwrites": False},
             (os, "rename"): {"forget_arg_idx": 0, "record_dst_idx": 1},
             (os, "replace"): {"forget_arg_idx": 0, "record_dst_idx": 1},
             (shutil, "copyfile"): {"record_dst_idx": 1},
-            (shutil, "copy"): {"record_dst_idx": 1},
-            (shutil, "copy2"): {"record_dst_idx": 1},
+            (shutil, "copy"): {"record_dst_idx": 1, "dst_may_be_dir": True},
+            (shutil, "copy2"): {"record_dst_idx": 1, "dst_may_be_dir": True},
             (shutil, "copytree"): {"record_dst_idx": 1},
-            (shutil, "move"): {"forget_arg_idx": 0, "record_dst_idx": 1},
-            (Path, "mkdir"): {"record_arg_idx": 0},
-            (Path, "touch"): {"record_arg_idx": 0},
+            (shutil, "move"): {"forget_arg_idx": 0, "record_dst_idx": 1, "dst_may_be_dir": True},
+            (Path, "mkdir"): {"record_arg_idx": 0, "overwrites": False},
+            (Path, "touch"): {"record_arg_idx": 0, "overwrites": False},
             (Path, "write_text"): {"record_arg_idx": 0},
             (Path, "write_bytes"): {"record_arg_idx": 0},
             (os, "remove"): {"forget_arg_idx": 0},
